@@ -2,6 +2,7 @@ package main
 
 import (
 	"fmt"
+	"strconv"
 	"strings"
 	"unicode/utf8"
 
@@ -203,19 +204,43 @@ func init() {
 				// the protocol setter - in any letter case - never makes a special URL out of a non-special one with its opaque host
 				if i%4 == 1 && sc != "file" && !strings.ContainsAny(plain, "/\\?#:@[]") {
 					hs := r.spell(cps, []int{0, 3}[i/4%2], true)
+					// the value the setter is called on is reached by every route: parsed, cloned, obtained by resolution; and the
+					// call the setters make is also made directly (BasicParser with the host / hostname state override)
 					for w := 3; w <= 4; w++ {
-						u, err := defaultCfg.Parser.Parse(sc + "://x/p")
-						if err != nil {
-							break
-						}
-						applySetter(u, w, hs)
-						exp := "x"
-						if o0.Kind == "U" && o0.Fields[fHostname] != "" {
-							exp = o0.Fields[fHostname]
-						}
-						if got := u.Hostname(); got != exp {
-							c.Report(Finding{Class: "violation", What: fmt.Sprintf("%s(%q) on %s://x/p gives the host %q; parsing the same host gives %q", setterNames[w], hs, sc, got, exp),
-								Case: Case{Kind: "hist", Cfg: defaultCfg.Desc, Input: sc + "://x/p", Ops: []string{Op{K: "s", W: w, A: hs}.String()}, Family: "host-setters", Index: i}, Host: exp})
+						for route := 0; route < 4; route++ {
+							u, err := defaultCfg.Parser.Parse(sc + "://x/p")
+							if err != nil {
+								break
+							}
+							how := setterNames[w]
+							switch route {
+							case 1:
+								u = u.Clone()
+								how += " on a clone"
+							case 2:
+								if u, err = u.Parse("p?q"); err != nil {
+									continue
+								}
+								how += " on a resolution result"
+							}
+							if route == 3 {
+								how = "BasicParser with State" + []string{"Host", "Hostname"}[w-3] + " override"
+								func() {
+									defer func() { recover() }()
+									defaultCfg.Parser.BasicParser(hs, nil, u, []url.State{url.StateHost, url.StateHostname}[w-3])
+								}()
+								c.cmpDirect(d, directCase{defaultCfg, nil, "=" + sc + "://x/p", 10 + w - 3, hs}, "host-direct", i)
+							} else {
+								applySetter(u, w, hs)
+							}
+							exp := "x"
+							if o0.Kind == "U" && o0.Fields[fHostname] != "" {
+								exp = o0.Fields[fHostname]
+							}
+							if got := u.Hostname(); got != exp {
+								c.Report(Finding{Class: "violation", What: fmt.Sprintf("%s (%q) on %s://x/p gives the host %q; parsing the same host gives %q", how, hs, sc, got, exp),
+									Case: Case{Kind: "hist", Cfg: defaultCfg.Desc, Input: sc + "://x/p", Ops: []string{how + ": " + Op{K: "s", W: w, A: hs}.String()}, Family: "host-setters", Index: i}, Host: exp})
+							}
 						}
 					}
 					if u, err := defaultCfg.Parser.Parse("sc://" + hs + "/p"); err == nil {
@@ -236,6 +261,51 @@ func init() {
 					o := c.cmpParse(d, defaultCfg, nil, "file://"+lh+"/x", allButVerrs, true, "file-localhost", i)
 					if o.Kind != "U" || o.Fields[fHostname] != "" || o.Fields[fHref] != "file:///x" {
 						c.Report(Finding{Class: "violation", What: fmt.Sprintf("file://%s/x: host is not empty: %s", lh, o.String()), Case: Case{Kind: "parse", Input: "file://" + lh + "/x", Family: "file-localhost", Index: i}})
+					}
+					// ... by every route to a file URL's host: the host setters on a parsed, cloned or resolved file URL, the direct
+					// call they make, and a network-path reference against a file base
+					for route := 0; route < 6; route++ {
+						u, err := defaultCfg.Parser.Parse("file://h/x")
+						if err != nil {
+							break
+						}
+						how := ""
+						switch route {
+						case 0:
+							u.SetHost(lh)
+							how = "SetHost"
+						case 1:
+							u = u.Clone()
+							u.SetHostname(lh)
+							how = "SetHostname on a clone"
+						case 2:
+							if u, err = u.Parse("y"); err != nil {
+								continue
+							}
+							u.SetHost(lh)
+							how = "SetHost on a resolution result"
+						case 3, 4:
+							st := []url.State{url.StateHost, url.StateHostname}[route-3]
+							func() {
+								defer func() { recover() }()
+								defaultCfg.Parser.BasicParser(lh, nil, u, st)
+							}()
+							how = "BasicParser with the host state override"
+							c.cmpDirect(d, directCase{defaultCfg, nil, "=file://h/x", 10 + route - 3, lh}, "file-localhost-direct", i)
+						case 5:
+							if !strings.ContainsAny(lh, "/\\?#") {
+								if u, err = u.Parse("//" + lh + "/x"); err != nil {
+									continue
+								}
+							} else {
+								continue
+							}
+							how = "network-path reference"
+						}
+						if u.Hostname() != "" {
+							c.Report(Finding{Class: "violation", What: fmt.Sprintf("%s with %q on a file URL: the host is %q, not empty", how, lh, u.Hostname()),
+								Case: Case{Kind: "hist", Cfg: defaultCfg.Desc, Input: "file://h/x", Ops: []string{how + " " + strconv.Quote(lh)}, Family: "file-localhost-routes", Index: i}})
+						}
 					}
 				}
 			})
@@ -306,6 +376,81 @@ func init() {
 					}
 				}
 			})
+			// the same relations for canonicalization profiles, whose Parse may run the parser twice (default scheme): what the
+			// first, failed run trimmed or removed must still be reported / rejected by the run that succeeds
+			{
+				rng := NewRng(c.Seed ^ 0xc15)
+				type quad struct{ d, r, f, b *Prof }
+				var quads []quad
+				for _, base := range []string{"defHttp", "defSc", "defHttp+repeated+rmFrag", "defFile", "defHttp+sortKeys+lax", "", "repeated"} {
+					j := func(x string) string {
+						if base == "" {
+							return x
+						}
+						if x == "" {
+							return base
+						}
+						return base + "+" + x
+					}
+					quads = append(quads, quad{profFromDesc(j("")), profFromDesc(j("report")), profFromDesc(j("fail")), profFromDesc(j("fail+report"))})
+				}
+				c.Pool.Run(6000*c.Scale, func(d *Driver, i int) {
+					r := rng.Fork(i)
+					q := quads[i%len(quads)]
+					var input string
+					core := r.Pick([]string{"example.com/a", "example.com", "h/p?q#f", "EXAMPLE.com:80/a/../b", "u:p@h/x", "1.2.3.4/", "localhost:8080/app", "a b/c", "h/%zz", "[::1]/x", "//h/x", "/p", "?q", "mailto:x", "http://h/"})
+					if r.Chance(1, 3) {
+						core = r.host() + r.path()
+					}
+					pre := r.Pick([]string{"", "", " ", "\t", "\n", "  \x00", "\x1f"})
+					post := r.Pick([]string{"", "", " ", "\n", "\r\n", " \t "})
+					input = pre + core + post
+					if r.Chance(1, 3) && len(core) > 2 {
+						k := 1 + r.Intn(len(core)-1)
+						input = pre + core[:k] + r.Pick([]string{"\t", "\n", "\r"}) + core[k:] + post
+					}
+					o := c.cmpProf(d, q.d, nil, input, allFields, "profile-diagnostics:default", i)
+					or := c.cmpProf(d, q.r, nil, input, allFields, "profile-diagnostics:reporting", i)
+					of := c.cmpProf(d, q.f, nil, input, allFields, "profile-diagnostics:fail", i)
+					ob := c.cmpProf(d, q.b, nil, input, allFields, "profile-diagnostics:both", i)
+					cs := Case{Kind: "cparse", Cfg: q.d.Desc, Input: input, Family: "profile-diagnostics", Index: i}
+					same := func(a, b Obs) bool {
+						if a.Kind != b.Kind {
+							return false
+						}
+						if a.Kind == "U" {
+							for _, k := range urlFieldsOnly {
+								if a.Fields[k] != b.Fields[k] {
+									return false
+								}
+							}
+						}
+						return true
+					}
+					if !same(o, or) {
+						c.Report(Finding{Class: "violation", What: "reporting changes the result of a profile: " + o.String() + " ; reporting " + or.String(), Case: cs})
+					}
+					if !same(of, ob) {
+						c.Report(Finding{Class: "violation", What: "reporting changes the result of a profile under fail-on-validation-error: " + of.String() + " ; " + ob.String(), Case: cs})
+					}
+					if of.Kind == "U" && !same(of, o) {
+						c.Report(Finding{Class: "violation", What: "a profile with fail-on-validation-error accepted with a different result: " + of.String() + " ; default " + o.String(), Case: cs})
+					}
+					if of.Kind == "U" && o.Kind != "U" {
+						c.Report(Finding{Class: "violation", What: "a profile with fail-on-validation-error accepts what the same profile without it rejects", Case: cs})
+					}
+					// "accepts exactly what reporting mode records nothing for" is a statement about ONE run of the parser. A profile with
+					// a default scheme runs it twice, and the second run reads scheme://input: leading blanks of the input, which the
+					// first run trimmed (and reported), are then inside the text - under lax host parsing they become part of the host
+					// without any further report, while fail mode stopped at the first run (observation O7 in DESIGN.md, outside the
+					// property as stated). The clause is evaluated where both runs see the same blanks: no leading C0 control or space.
+					leading := len(input) > 0 && input[0] <= 0x20
+					clean := or.Kind == "U" && or.Fields[fVerrs] == ""
+					if (of.Kind == "U") != clean && !leading {
+						c.Report(Finding{Class: "violation", What: fmt.Sprintf("profile: fail-on-validation-error accepts=%v but reporting mode gives %s", of.Kind == "U", or.String()), Case: cs})
+					}
+				})
+			}
 		},
 		rule: "WPT + generated (input, base) pairs under the four configurations {default, reporting, fail-on-validation-error, both}; each compared with the model on all 20 observables incl. the (type, failure) list, and the property's relations evaluated on the implementation's four results",
 	}
